@@ -100,6 +100,32 @@ Proof.
   clear PM CODE. induction MEN as [|i is Hi _ IH]; cbn [flat_map]; [constructor|]. apply Forall_app; split; [apply emit_pinstr_pm; exact Hi|exact IH].
 Qed.
 
+
+(* the parallel-move theorem of Proof/A64PM.v together with the frame: besides the assignment, only
+   X2, X3 and spill slots can change - heap, output, flags, SP and the stack outside the spill area do not *)
+Theorem a64_parallel_moves_frame_ok im (am : amap atemp) (code : list acode) s sp :
+  indeg1 atemp a64_teqb am -> nodup_targets atemp a64_teqb am -> amap_ok atemp operand_ok am ->
+  parallel_moves_code a64_backend am = Ok code ->
+  frame_ok s sp ->
+  exists s', run_straight im code s = MOk s' /\
+    (forall a b, edge atemp a64_teqb am a b -> lget s' sp b = lget s sp a) /\
+    (forall u, operand_ok u -> (forall a, ~ edge atemp a64_teqb am a u) -> lget s' sp u = lget s sp u) /\
+    frame_ok s' sp /\ heap s' = heap s /\ out s' = out s /\ flags s' = flags s /\
+    (forall k, (forall p, slot_ok p -> k <> key (slot_addr sp p)) -> PM.find k (stack s') = PM.find k (stack s)).
+Proof.
+  intros ID NT OK E F.
+  destruct (a64_parallel_moves_ok im am code s sp F ID NT OK E) as (s' & R & F' & H' & O' & P1 & P2).
+  destruct (pm_frame im code s s' sp (parallel_moves_code_pm am code OK E) F R) as (OUT & FL).
+  exists s'. repeat split; auto; apply F'.
+Qed.
+Theorem a64_parallel_moves_total (am : amap atemp) :
+  indeg1 atemp a64_teqb am -> exists code, parallel_moves_code a64_backend am = Ok code.
+Proof.
+  intros ID. unfold parallel_moves_code. fold a64_teqb.
+  pose proof (parallel_moves_terminates atemp a64_teqb a64_teqb_spec am ID) as H. unfold parallel_moves in H.
+  destruct (spanning_forest atemp a64_teqb _ am); [eexists; reflexivity|]. exfalso. apply H. reflexivity.
+Qed.
+
 (* ---------- the reference-count phase ---------- *)
 Definition ptr_of (s : astate) (sp : Z) (t : atemp) : Z := match lget s sp t with Some p => p | None => 0 end.
 Definition rc_temp (o : @rc_op atemp) : atemp := match o with RcErase t => t | RcShare t _ => t end.
@@ -291,4 +317,43 @@ Proof.
   - exact F2'.
   - congruence.
   - intros k Hk. rewrite (OUT k Hk). now rewrite X5.
+Qed.
+
+(* ---------- the hypotheses of a64_substitute_ok are satisfiable ----------
+   context a (object), b (integer), c (object); new context b, a, a: the two variables swap places
+   (a cycle through X5/X7 broken via X2), a is duplicated (header += 1) and c is dropped (erase).
+   The code sits alone in an image; a points to a block, c is null. *)
+Definition ex_T : ty := Decl ("T"%string, 0%N).
+Definition ex_ctx : ctx := [mkb ("a"%string, 1%N) Prd ex_T; mkb ("b"%string, 2%N) Ext I64; mkb ("c"%string, 3%N) Prd ex_T].
+Definition ex_re : list (binding * ident) :=
+  [(mkb ("b"%string, 4%N) Ext I64, ("b"%string, 2%N)); (mkb ("a"%string, 5%N) Prd ex_T, ("a"%string, 1%N));
+   (mkb ("a"%string, 6%N) Prd ex_T, ("a"%string, 1%N))].
+Definition ex_code : list acode :=
+  match code_statement a64_backend [] (Substitute ex_re (Call ("f"%string, 0%N) [])) ex_ctx 0 with Ok (c, _) => c | Err _ => [] end.
+Definition ex_state : astate :=
+  {| regs := PM.add (N.succ_pos 4) (HEAP_BASE + 64) (PM.add (N.succ_pos 8) 0 (PM.add (N.succ_pos 1) (HEAP_BASE + 128) (PM.empty Z)));
+     spv := Some (STACK_TOP - 2144); heap := PM.empty Z; stack := PM.empty Z; flags := None; out := []; hw := HEAP_BASE - 8 |}.
+Example a64_substitute_hyps_satisfiable :
+  NoDup (ids ex_ctx) /\ NoDup (new_ids ex_re) /\
+  code_statement a64_backend [] (Substitute ex_re (Call ("f"%string, 0%N) [])) ex_ctx 0 = Ok (ex_code, 4%N) /\
+  List.length ex_code = 26%nat /\
+  code_at (mk_image ex_code) 1 ex_code /\ labels_at (mk_image ex_code) 1 ex_code /\
+  frame_ok ex_state (STACK_TOP - 2144) /\ rget ex_state FREE = Some (HEAP_BASE + 128) /\
+  (forall i b t, nth_error ex_ctx i = Some b -> is_obj b = true -> atpos Fst i = Ok t ->
+     exists p, lget ex_state (STACK_TOP - 2144) t = Some p /\ (p = 0 \/ block_ok p)).
+Proof.
+  split; [vm_compute; repeat constructor; cbn; intuition discriminate|].
+  split; [vm_compute; repeat constructor; cbn; intuition discriminate|].
+  split; [vm_compute; reflexivity|]. split; [vm_compute; reflexivity|].
+  split.
+  { intros j c H. do 26 (destruct j as [|j]; [vm_compute in H |- *; exact H|]). vm_compute in H. destruct j; discriminate. }
+  split.
+  { intros j l H. do 26 (destruct j as [|j]; [vm_compute in H; first [discriminate | inversion H; subst l; vm_compute; reflexivity]|]).
+    vm_compute in H. destruct j; discriminate. }
+  split.
+  { split; [reflexivity|]. unfold sp_ok, STACK_LIMIT, STACK_TOP. change SPILL_SPACE with 2048. repeat split; try reflexivity; lia. }
+  split; [reflexivity|].
+  intros i b t Hi Ho Ht. destruct i as [|[|[|i]]]; cbn in Hi; try (destruct i; discriminate); inversion Hi; subst; try discriminate.
+  - vm_compute in Ht. inversion Ht; subst t. exists (HEAP_BASE + 64). split; [reflexivity|]. right. split; reflexivity.
+  - vm_compute in Ht. inversion Ht; subst t. exists 0. split; [reflexivity|]. left; reflexivity.
 Qed.
